@@ -92,4 +92,15 @@ def step (s : St) (j : Json) : Except String (St × Json × List Fired) := do
 def initSt (j : Json) : St :=
   { st := fun _ => VS.initial, n := (jnat j "n").toOption.getD 3 }
 
-def main : IO UInt32 := runDriver { init := initSt, step := step }
+/-- the model's state is a function of the inputs only (it IS the specification's bookkeeping): after a DIFF the
+    monitors keep watching as long as both sides still agree on who is active -/
+def resync (_pre post : St) (j : Json) : Except String St := do
+  let out ← jget j "out"
+  match (out.getObjVal? "status").toOption with
+  | some sj =>
+    let vs ← parseVS sj
+    let v := (jnat j "val").toOption.getD 0
+    if vs.active == (post.st v).active then pure post else throw "activity differs"
+  | none => pure post
+
+def main : IO UInt32 := runDriver { init := initSt, step := step, resync := some resync }
